@@ -229,6 +229,132 @@ func c20(c *core.Ctx) {
 				"operation": "GetFrom into one destination, IPv4 then IPv6 message, repeated", "getter_index": typ, "allocs_per_run": a})
 		}
 	})
+	// IPv6-family values placed on the wire by hand, among them IPv4-mapped ones (::ffff:a.b.c.d), alternating with plain
+	// IPv6 values on one destination
+	c.SectionSerial("alternating-ipv6-shapes", 5, func(i int64, r *gen.Rand) {
+		typ := []stun.AttrType{stun.AttrMappedAddress, stun.AttrAlternateServer, stun.AttrResponseOrigin, stun.AttrOtherAddress, stun.AttrXORMappedAddress}[i]
+		mk := func(ip []byte) *stun.Message {
+			m := new(stun.Message)
+			_ = m.Build(stun.BindingSuccess, stun.NewTransactionIDSetter(r.TID()))
+			v := append([]byte{0, 2, 0x12, 0x34}, ip...)
+			if typ == stun.AttrXORMappedAddress {
+				pad := append([]byte{0x21, 0x12, 0xA4, 0x42}, m.TransactionID[:]...)
+				for k := range ip {
+					v[4+k] ^= pad[k]
+				}
+			}
+			m.Add(typ, v)
+
+			return m
+		}
+		mapped := append(append(make([]byte, 10), 0xff, 0xff), r.Bytes(4)...)
+		shapes := []*stun.Message{mk(r.Bytes(16)), mk(mapped), mk(make([]byte, 16)), mk(append(make([]byte, 12), r.Bytes(4)...)), mk(r.Bytes(16))}
+		var get func(m *stun.Message) error
+		switch i {
+		case 0:
+			get = new(stun.MappedAddress).GetFrom
+		case 1:
+			get = new(stun.AlternateServer).GetFrom
+		case 2:
+			get = new(stun.ResponseOrigin).GetFrom
+		case 3:
+			get = new(stun.OtherAddress).GetFrom
+		default:
+			get = new(stun.XORMappedAddress).GetFrom
+		}
+		if err := get(shapes[0]); err != nil {
+			fatalHarness("C20 ipv6 shapes: " + err.Error())
+		}
+		c.Eval(1)
+		a := testing.AllocsPerRun(100, func() {
+			for _, m := range shapes {
+				_ = get(m)
+			}
+		})
+		if a != 0 {
+			c.Violate("allocates", fmt.Sprintf("alloc:alternating-ipv6-shapes:%#x", uint16(typ)), map[string]interface{}{
+				"operation": "GetFrom into one destination: IPv6, IPv4-mapped IPv6 (::ffff:a.b.c.d on the wire), ::, ::a.b.c.d, IPv6, repeated", "attribute": fmt.Sprintf("%#x", uint16(typ)), "allocs_per_run": a})
+		}
+	})
+	// text destinations carried across values of changing length (long, short, long), never longer than the first
+	c.SectionSerial("alternating-text-lengths", 5, func(i int64, r *gen.Rand) {
+		mk := func(n int) *stun.Message {
+			m := new(stun.Message)
+			v := r.Bytes(n)
+			_ = m.Build(stun.BindingSuccess, stun.NewTransactionIDSetter(r.TID()),
+				stun.RawAttribute{Type: []stun.AttrType{stun.AttrUsername, stun.AttrRealm, stun.AttrNonce, stun.AttrSoftware, stun.AttrErrorCode}[i], Value: append([]byte{0, 0, 4, 1}, v...)[4*btoi(i != 4):]})
+
+			return m
+		}
+		long, short, mid, empty := mk(300), mk(7), mk(120), mk(0)
+		var get func(m *stun.Message) error
+		switch i {
+		case 0:
+			get = new(stun.Username).GetFrom
+		case 1:
+			get = new(stun.Realm).GetFrom
+		case 2:
+			get = new(stun.Nonce).GetFrom
+		case 3:
+			get = new(stun.Software).GetFrom
+		default:
+			get = new(stun.ErrorCodeAttribute).GetFrom
+		}
+		if err := get(long); err != nil {
+			fatalHarness("C20 text lengths: " + err.Error())
+		}
+		c.Eval(1)
+		a := testing.AllocsPerRun(100, func() { _ = get(short); _ = get(long); _ = get(empty); _ = get(mid); _ = get(long) })
+		if a != 0 {
+			c.Violate("allocates", fmt.Sprintf("alloc:alternating-text-lengths:%d", i), map[string]interface{}{
+				"operation": "GetFrom into one destination warmed with the longest value: 7, 300, 0, 120, 300 bytes, repeated", "getter_index": i, "allocs_per_run": a})
+		}
+	})
+	// several credentials in turn on one goroutine: verify for user A, for user B, sign for C, A again
+	c.SectionSerial("alternating-keys", 6, func(i int64, r *gen.Rand) {
+		lens := [][3]int{{6, 6, 6}, {16, 16, 16}, {6, 20, 64}, {16, 100, 16}, {65, 70, 200}, {0, 16, 64}}[i]
+		var keys [3]stun.MessageIntegrity
+		var msgs [3]*stun.Message
+		for k := range keys {
+			keys[k] = stun.MessageIntegrity(r.Bytes(lens[k]))
+			src := new(stun.Message)
+			_ = src.Build(stun.BindingRequest, stun.NewTransactionIDSetter(r.TID()), stun.NewSoftware("c20"), keys[k])
+			buf := make([]byte, len(src.Raw), len(src.Raw)+64) // spare capacity >= 20: outside the recorded finding
+			copy(buf, src.Raw)
+			msgs[k] = &stun.Message{Raw: buf}
+			if err := msgs[k].Decode(); err != nil {
+				fatalHarness("C20 keys: " + err.Error())
+			}
+		}
+		build := new(stun.Message)
+		sw := stun.NewSoftware("c20")
+		tid := stun.NewTransactionIDSetter(r.TID())
+		setters := []stun.Setter{stun.BindingSuccess, tid, &sw, &keys[2]}
+		_ = build.Build(setters...)
+		c.Eval(1)
+		var bad error
+		a := testing.AllocsPerRun(100, func() {
+			if err := keys[0].Check(msgs[0]); err != nil {
+				bad = err
+			}
+			if err := keys[1].Check(msgs[1]); err != nil {
+				bad = err
+			}
+			if err := build.Build(setters...); err != nil {
+				bad = err
+			}
+			if err := keys[0].Check(msgs[0]); err != nil {
+				bad = err
+			}
+		})
+		if bad != nil {
+			fatalHarness("C20 keys: " + bad.Error())
+		}
+		if a != 0 {
+			c.Violate("allocates", "alloc:alternating-keys", map[string]interface{}{
+				"operation": "Check(key A), Check(key B), Build(... MessageIntegrity key C), Check(key A), repeated, warm buffers with spare capacity 64", "key_lengths": fmt.Sprint(lens), "allocs_per_run": a})
+		}
+	})
 	// an attribute-less message in between must not cost the warm attribute list
 	c.SectionSerial("empty-then-full-decode", 3, func(i int64, r *gen.Rand) {
 		setters := []stun.Setter{stun.BindingSuccess, stun.NewTransactionIDSetter(r.TID())}
@@ -362,6 +488,14 @@ func c20(c *core.Ctx) {
 			c.Count(fmt.Sprintf("messages_in_regime_S%d", regime), 1)
 		}
 	})
+}
+
+func btoi(b bool) int {
+	if b {
+		return 1
+	}
+
+	return 0
 }
 
 func min(a, b int) int {
